@@ -911,3 +911,30 @@ def translated_long_script(rng, name):
         ops += ["ntime %d" % t, "nhk 1", "ndrop 0", "ndrop 0"]
     ops += ["nexpect own 1 p61", "nexpect notpending 1 p61"]
     return Script(name, ops, {"suite": "node", "noshrink": True})
+
+
+def stale_responder_script(rng, name, pt=60, lost=100, gap=24):
+    """total loss for `lost` seconds; then exactly one ping gets through and its pong is lost; total loss for another `gap` seconds (the initiator's
+    attempt times out while the responder's state is still young); then reliable delivery for peer timeout + retry horizon: both must be connected
+    and exchange payload — a responder state that has outlived the initiator's attempt must be given up after its own retry budget, however often
+    the initiator dials again"""
+    ports = [1, 2]
+    ops = ["nkeys 2 %s" % rng.bytes(6).hex(), node_line(1, pt=pt, ka="-", key=0, trust=(0, 1)), node_line(2, pt=pt, ka="-", key=1, trust=(0, 1)), "npeer 1 p2", "ndrop 0"]
+    t = 0
+    while t < lost:
+        t += 1
+        ops += ["ntime %d" % t, "nhk 1", "nhk 2", "ndropfrom 1", "ndropfrom 2"]
+    # one ping arrives, the pong is lost
+    t += 1
+    ops += ["ntime %d" % t, "nhk 1", "nhk 2", "ndeliver 0", "ndropfrom 1", "ndropfrom 2"]
+    for _ in range(gap):
+        t += 1
+        ops += ["ntime %d" % t, "nhk 1", "nhk 2", "ndropfrom 1", "ndropfrom 2"]
+    for _ in range(pt + 120 + 30):
+        t += 1
+        ops += second(ports, t)
+    for a, b in ((1, 2), (2, 1)):
+        ops.append("nframe %d %s" % (a, hx(ipv4_packet(ip4(a), ip4(b), b"heal"))))
+        ops.append("ndeliver 0")
+    ops.append("nexpect mesh 1 2")
+    return Script(name, ops, {"suite": "node", "noshrink": True})
